@@ -40,74 +40,141 @@ theorem go_outcome_append (cfg : Cfg) (ph : Phase) (pre rest : List Resp) :
 
 -- invariant of the Block1 loop ---------------------------------------------------------------
 
-/-- The cursor stays inside the payload and a transfer that was fragmented stays fragmented. -/
+/-- The cursor stays inside the payload (or the payload is empty and the request is block 0 of
+it: only with the Block1 size hint) and a transfer that was fragmented stays fragmented. -/
 structure B1Inv (cfg : Cfg) (st : B1State) : Prop where
-  szx_le : st.szx ≤ 6
-  inside : cfg.payload.length > threshold cfg st.szx →
-    st.cursor * blockSize st.szx < cfg.payload.length
-  whole : ¬ cfg.payload.length > threshold cfg st.szx → st.cursor = 0
+  szx_le : st.szx ≤ 7
+  bert : st.szx = 7 → 1024 ≤ cfg.maxPayload
+  inside : fragmented cfg st.szx = true →
+    st.cursor * unit st.szx < cfg.payload.length ∨ (st.cursor = 0 ∧ cfg.payload.length = 0)
+  whole : ¬ fragmented cfg st.szx = true → st.cursor = 0
 
-theorem B1Inv.start {cfg : Cfg} (h : cfg.szx0 ≤ 6) : B1Inv cfg { szx := cfg.szx0, cursor := 0 } :=
-  ⟨h, fun hf => by simp; omega, fun _ => rfl⟩
+/-- the configurations the theorems are about: the exponent the Block1 loop starts with (the
+remote's maximum, or the application's deprecated Block1 size hint) is 0..7, and when it is 7
+(BERT) the remote takes at least 1 KiB of payload (RFC 8323: BERT needs a Max-Message-Size above
+1152; `rfc8323common.maximum_payload_size` is never below 1124) -/
+structure Cfg.Ok (cfg : Cfg) : Prop where
+  szx_le : startSzx cfg ≤ 7
+  bert : startSzx cfg = 7 → 1024 ≤ cfg.maxPayload
+
+/-- without the Block1 hint that is: the remote's maximum is 0..7, and ≥ 1 KiB payload for BERT -/
+theorem Cfg.Ok.of_remote {cfg : Cfg} (hh : cfg.hint1 = none) (h7 : cfg.szx0 ≤ 7)
+    (hb : cfg.szx0 = 7 → 1024 ≤ cfg.maxPayload) : cfg.Ok := by
+  have : startSzx cfg = cfg.szx0 := by simp [startSzx, hh]
+  exact ⟨by rw [this]; exact h7, by rw [this]; exact hb⟩
+
+theorem B1Inv.start {cfg : Cfg} (h : cfg.Ok) : B1Inv cfg { szx := startSzx cfg, cursor := 0 } :=
+  ⟨h.szx_le, h.bert, fun _ => by
+      by_cases h0 : cfg.payload.length = 0
+      · exact Or.inr ⟨rfl, h0⟩
+      · exact Or.inl (by show 0 * _ < _; rw [Nat.zero_mul]; omega),
+    fun _ => rfl⟩
+
+theorem fragmented_of_hint {cfg : Cfg} (h : cfg.hint1.isSome = true) (s : Nat) :
+    fragmented cfg s = true := by
+  simp [fragmented, h]
+
+theorem fragmented_iff {cfg : Cfg} (h : cfg.hint1.isSome = false) (s : Nat) :
+    fragmented cfg s = true ↔ cfg.payload.length > threshold cfg s := by
+  simp [fragmented, h]
 
 /-- the request of a round, in closed form -/
 theorem nextRequest_eq {cfg : Cfg} {st : B1State} (h : B1Inv cfg st) :
     nextRequest cfg st =
-      if cfg.payload.length > threshold cfg st.szx then
+      if fragmented cfg st.szx = true then
         some { block1 := some { num := st.cursor,
-                                more := decide (st.cursor * blockSize st.szx + blockSize st.szx
+                                more := decide (st.cursor * unit st.szx + blk cfg.maxPayload st.szx
                                                   < cfg.payload.length),
                                 szx := st.szx },
                block2 := hintOpt cfg,
                size1 := if st.cursor = 0 then some cfg.payload.length else none,
-               payload := (cfg.payload.drop (st.cursor * blockSize st.szx)).take (blockSize st.szx) }
+               payload := (cfg.payload.drop (st.cursor * unit st.szx)).take (blk cfg.maxPayload st.szx) }
       else some { block1 := none, block2 := hintOpt cfg, size1 := none, payload := cfg.payload } := by
   unfold nextRequest
-  by_cases hf : cfg.payload.length > threshold cfg st.szx
+  by_cases hf : fragmented cfg st.szx = true
   · simp only [hf, ↓reduceIte]
-    rw [extractBlock_eq (h.inside hf)]
+    rw [extractBlock_eq h.szx_le (h.inside hf)]
   · simp [hf]
 
 theorem enterB1_of_inv {cfg : Cfg} {st : B1State} (h : B1Inv cfg st) :
     ∃ cur, nextRequest cfg st = some cur ∧ enterB1 cfg st = .b1 st cur := by
   unfold enterB1
   rw [nextRequest_eq h]
-  by_cases hf : cfg.payload.length > threshold cfg st.szx <;> simp [hf]
+  by_cases hf : fragmented cfg st.szx = true <;> simp [hf]
 
 theorem threshold_small {cfg : Cfg} {s : Nat} (h : s < 6) : threshold cfg s = blockSize s := by
   unfold threshold blockSize
   have : ¬ s ≥ 6 := by omega
   simp [this]
 
+/-- the outstanding request of the Block1 loop carries the application's Block2 option (none, or
+the size hint); if it is a non-final block, the transfer is fragmented, bytes remain behind the
+block, and the cursor advanced by `advance` stands at the end of the block -/
+theorem b1_cur_facts {cfg : Cfg} {st : B1State} {cur : Req} (hinv : B1Inv cfg st)
+    (hcur : nextRequest cfg st = some cur) :
+    cur.block2 = hintOpt cfg ∧ ((sentBlock1 st cur).more = true →
+      fragmented cfg st.szx = true ∧
+      st.cursor * unit st.szx + blk cfg.maxPayload st.szx < cfg.payload.length ∧
+      advance st cur * unit st.szx = st.cursor * unit st.szx + blk cfg.maxPayload st.szx) := by
+  rw [nextRequest_eq hinv] at hcur
+  by_cases hf : fragmented cfg st.szx = true
+  · simp only [hf, Bool.false_eq_true, ↓reduceIte, Option.some.injEq] at hcur
+    subst hcur
+    refine ⟨rfl, fun hsm => ?_⟩
+    have hm : st.cursor * unit st.szx + blk cfg.maxPayload st.szx < cfg.payload.length := by
+      simpa [sentBlock1] using hsm
+    refine ⟨hf, hm, ?_⟩
+    unfold advance
+    by_cases h7 : st.szx = 7
+    · simp only [h7, ↓reduceIte, List.length_take, List.length_drop]
+      rw [h7] at hm
+      rw [unit_seven] at hm ⊢
+      rw [Nat.min_eq_left (by omega), blk_seven, Nat.mul_div_cancel_left _ (by decide : 0 < 1024)]
+      rw [blk_seven] at hm
+      rw [Nat.add_mul, Nat.mul_comm (cfg.maxPayload / 1024)]
+    · have h6 : st.szx ≤ 6 := by have := hinv.szx_le; omega
+      simp only [h7, ↓reduceIte]
+      rw [blk_le6 h6, unit_le6 h6, Nat.add_mul, Nat.one_mul]
+  · simp only [hf, Bool.false_eq_true, ↓reduceIte, Option.some.injEq] at hcur
+    subst hcur
+    exact ⟨rfl, fun hsm => by simp [sentBlock1] at hsm⟩
+
 /-- after an acknowledged non-final block the invariant holds for the (possibly reduced) state -/
-theorem B1Inv.next {cfg : Cfg} {st : B1State} (h : B1Inv cfg st)
-    (hf : cfg.payload.length > threshold cfg st.szx)
-    (hmore : st.cursor * blockSize st.szx + blockSize st.szx < cfg.payload.length) (t : Nat) :
-    B1Inv cfg { szx := (reduce t st.szx (st.cursor + 1)).1,
-                cursor := (reduce t st.szx (st.cursor + 1)).2 } := by
-  have hoff := reduce_offset t st.szx (st.cursor + 1)
-  have hszx := reduce_szx t st.szx (st.cursor + 1)
-  have hin : (reduce t st.szx (st.cursor + 1)).2 * blockSize (reduce t st.szx (st.cursor + 1)).1
+theorem B1Inv.next {cfg : Cfg} {st : B1State} {cur : Req} (h : B1Inv cfg st)
+    (hcur : nextRequest cfg st = some cur) (hsm : (sentBlock1 st cur).more = true) (t : Nat) :
+    B1Inv cfg { szx := (reduceB t st.szx (advance st cur)).1,
+                cursor := (reduceB t st.szx (advance st cur)).2 } := by
+  obtain ⟨hf, hmore, hadv⟩ := (b1_cur_facts h hcur).2 hsm
+  have h7 := h.szx_le
+  have hoff := reduceB_offset (t := t) (advance st cur) h7
+  have hszx := reduceB_szx (t := t) (advance st cur) h7
+  obtain ⟨_, _, hule, _⟩ := blk_spec (mp := cfg.maxPayload) h7 h.bert
+  have hle : (reduceB t st.szx (advance st cur)).1 ≤ st.szx := by
+    rw [hszx]; exact Nat.min_le_right _ _
+  have hin : (reduceB t st.szx (advance st cur)).2 * unit (reduceB t st.szx (advance st cur)).1
       < cfg.payload.length := by
-    rw [hoff, Nat.add_mul, Nat.one_mul]; exact hmore
-  have hfrag : cfg.payload.length > threshold cfg (reduce t st.szx (st.cursor + 1)).1 := by
-    by_cases h6 : (reduce t st.szx (st.cursor + 1)).1 < 6
+    rw [hoff, hadv]; exact hmore
+  have hfrag : fragmented cfg (reduceB t st.szx (advance st cur)).1 = true := by
+    by_cases hh : cfg.hint1.isSome = true
+    · exact fragmented_of_hint hh _
+    have hh' : cfg.hint1.isSome = false := by simpa using hh
+    rw [fragmented_iff hh'] at hf ⊢
+    by_cases h6 : (reduceB t st.szx (advance st cur)).1 < 6
     · rw [threshold_small h6]
-      have h1 : blockSize (reduce t st.szx (st.cursor + 1)).1 ≤ blockSize st.szx :=
-        blockSize_mono (by rw [hszx]; exact Nat.min_le_right _ _)
-      have h2 : 0 ≤ st.cursor * blockSize st.szx := Nat.zero_le _
+      have h1 : blockSize (reduceB t st.szx (advance st cur)).1 ≤ unit st.szx := by
+        unfold unit
+        exact blockSize_mono (by omega)
+      have h2 : 0 ≤ st.cursor * unit st.szx := Nat.zero_le _
       omega
-    · have hs := h.szx_le
-      have : (reduce t st.szx (st.cursor + 1)).1 = st.szx := by
-        have : min t st.szx ≤ st.szx := Nat.min_le_right _ _
-        omega
+    · have : threshold cfg (reduceB t st.szx (advance st cur)).1 = threshold cfg st.szx := by
+        unfold threshold
+        rw [if_pos (by omega), if_pos (by omega)]
       rw [this]; exact hf
-  refine ⟨?_, fun _ => hin, fun hn => absurd hfrag hn⟩
-  show (reduce t st.szx (st.cursor + 1)).1 ≤ 6
-  rw [hszx]
-  have := h.szx_le
-  have : min t st.szx ≤ st.szx := Nat.min_le_right _ _
-  omega
+  refine ⟨?_, fun h7' => h.bert ?_, fun _ => Or.inl hin, fun hn => absurd hfrag hn⟩
+  · show (reduceB t st.szx (advance st cur)).1 ≤ 7
+    omega
+  · have h7'' : (reduceB t st.szx (advance st cur)).1 = 7 := h7'
+    omega
 
 -- invariant of the Block2 loop ---------------------------------------------------------------
 
@@ -145,15 +212,19 @@ theorem PhaseOk.enterB2 (cfg : Cfg) (t : Req) {a : Asm} (h : B2Inv a) : PhaseOk 
   obtain ⟨cur, h1, h2, _⟩ := enterB2_of_inv cfg t h
   rw [h2]; exact ⟨h, h1⟩
 
-theorem validFor_more {b : BlockOpt} {n : Nat} (hm : b.more = true) (h : b.validFor n = true) :
-    n = b.size := by
-  unfold BlockOpt.validFor at h
-  simpa [hm] using h
-
-theorem validFor_last {b : BlockOpt} {n : Nat} (hm : b.more = false) (h : b.validFor n = true) :
-    n ≤ b.size := by
-  unfold BlockOpt.validFor at h
-  simpa [hm] using h
+/-- a valid non-final block carries a positive whole number of blocks: exactly one, or (BERT) one
+or more KiB -- never none (after the fix also for BERT) -/
+theorem okFor_more {b : BlockOpt} {n : Nat} (hm : b.more = true) (h : b.okFor n = true) :
+    0 < n ∧ b.size ∣ n ∧ (b.szx ≠ 7 → n = b.size) := by
+  unfold BlockOpt.okFor BlockOpt.validFor at h
+  by_cases h7 : b.szx = 7
+  · simp only [h7, ↓reduceIte, hm, Bool.and_eq_true, beq_iff_eq, Bool.true_and, Bool.not_eq_true',
+      beq_eq_false_iff_ne, ne_eq] at h
+    have hs : b.size = 1024 := by rw [BlockOpt.size_unit, h7, unit_seven]
+    exact ⟨by omega, by rw [hs]; exact Nat.dvd_of_mod_eq_zero h.1, fun hc => absurd h7 hc⟩
+  · simp only [h7, ↓reduceIte, hm, Bool.and_eq_true, beq_iff_eq, Bool.true_and, Bool.not_eq_true',
+      beq_eq_false_iff_ne, ne_eq] at h
+    exact ⟨by rw [h.1]; exact b.size_pos, by rw [h.1]; exact Nat.dvd_refl _, fun _ => h.1⟩
 
 theorem PhaseOk.completeBlock2 (cfg : Cfg) (t : Req) (r : Resp) : PhaseOk cfg (completeBlock2 cfg t r) := by
   cases hb : r.block2 with
@@ -169,12 +240,11 @@ theorem PhaseOk.completeBlock2 (cfg : Cfg) (t : Req) (r : Resp) : PhaseOk cfg (c
     by_cases hm : b2.more = true
     · by_cases hn : b2.num ≠ 0
       · simp [hm, hn, PhaseOk]
-      · by_cases hv : b2.validFor r.payload.length = true
+      · by_cases hv : b2.okFor r.payload.length = true
         · simp only [hm, Bool.not_true, Bool.false_eq_true, ↓reduceIte, hn, hv]
           apply PhaseOk.enterB2
           simp only [B2Inv]
-          rw [validFor_more hm hv]
-          exact Nat.dvd_refl _
+          exact (okFor_more hm hv).2.1
         · simp [hm, hn, hv, PhaseOk]
     · simp [hm, PhaseOk]
 
@@ -200,24 +270,15 @@ theorem PhaseOk.step {cfg : Cfg} {ph : Phase} (h : PhaseOk cfg ph) (r : Resp) :
       · simp only [hnum, ↓reduceIte]
         by_cases hsm : (sentBlock1 st cur).more = true
         · -- a non-final block was sent: the transfer is fragmented and bytes remain
-          rw [nextRequest_eq hinv] at hcur
-          by_cases hf : cfg.payload.length > threshold cfg st.szx
-          · simp only [hf, ↓reduceIte, Option.some.injEq] at hcur
-            subst hcur
-            simp only [sentBlock1, Option.getD_some, decide_eq_true_eq] at hsm
-            have hnext := B1Inv.next hinv hf hsm a.szx
-            simp only [sentBlock1, Option.getD_some, hsm, decide_true, Bool.not_true,
-              Bool.false_eq_true, ↓reduceIte]
-            by_cases ham : a.more = true
-            · simp only [ham, ↓reduceIte]; exact PhaseOk.enterB1 hnext
-            · by_cases hsucc : isSuccessful r.code = true
-              · simp only [ham, hsucc, Bool.false_eq_true, ↓reduceIte, Bool.not_true]
-                exact PhaseOk.enterB1 hnext
-              · simp only [ham, hsucc, Bool.false_eq_true, ↓reduceIte, Bool.not_false]
-                exact PhaseOk.completeBlock2 cfg _ r
-          · simp only [hf, ↓reduceIte, Option.some.injEq] at hcur
-            subst hcur
-            simp [sentBlock1] at hsm
+          have hnext := B1Inv.next hinv hcur hsm a.szx
+          simp only [hsm, Bool.not_true, Bool.false_eq_true, ↓reduceIte]
+          by_cases ham : a.more = true
+          · simp only [ham, ↓reduceIte]; exact PhaseOk.enterB1 hnext
+          · by_cases hsucc : isSuccessful r.code = true
+            · simp only [ham, hsucc, Bool.false_eq_true, ↓reduceIte, Bool.not_true]
+              exact PhaseOk.enterB1 hnext
+            · simp only [ham, hsucc, Bool.false_eq_true, ↓reduceIte, Bool.not_false]
+              exact PhaseOk.completeBlock2 cfg _ r
         · simp only [hsm, Bool.not_false, ↓reduceIte]
           by_cases hx : (a.more || r.code == codeContinue) = true
           · simp [hx, PhaseOk]
@@ -235,7 +296,7 @@ theorem PhaseOk.step {cfg : Cfg} {ph : Phase} (h : PhaseOk cfg ph) (r : Resp) :
       by_cases hc : r.code ≠ a.code
       · simp [hc, PhaseOk]
       rw [if_neg hc]
-      by_cases hv : b2.validFor r.payload.length = true
+      by_cases hv : b2.okFor r.payload.length = true
       · by_cases hs : b2.start ≠ a.payload.length
         · simp [hv, hs, PhaseOk]
         · by_cases he : r.etag ≠ a.etag
@@ -244,14 +305,13 @@ theorem PhaseOk.step {cfg : Cfg} {ph : Phase} (h : PhaseOk cfg ph) (r : Resp) :
             · simp only [hv, Bool.not_true, Bool.false_eq_true, ↓reduceIte, hs, he, hm]
               apply PhaseOk.enterB2
               simp only [B2Inv, List.length_append]
-              rw [validFor_more hm hv]
               have hs' : b2.start = a.payload.length := by simpa using hs
               rw [← hs', BlockOpt.start]
-              exact Nat.dvd_add (Nat.dvd_mul_left _ _) (Nat.dvd_refl _)
+              exact Nat.dvd_add (Nat.dvd_mul_left _ _) (okFor_more hm hv).2.1
             · simp [hv, hs, he, hm, PhaseOk]
       · simp [hv, PhaseOk]
 
-theorem PhaseOk.start {cfg : Cfg} (h : cfg.szx0 ≤ 6) : PhaseOk cfg (start cfg) :=
+theorem PhaseOk.start {cfg : Cfg} (h : cfg.Ok) : PhaseOk cfg (start cfg) :=
   PhaseOk.enterB1 (B1Inv.start h)
 
 theorem PhaseOk.go {cfg : Cfg} {ph : Phase} (h : PhaseOk cfg ph) (rs : List Resp) :
